@@ -137,3 +137,19 @@ Example C05_ex_tag_and_calendar :
   /\ incr 740163%Z (S' "2020.10") (S' "YYYY.VV") fl0 740163%Z = INone.
 Proof. vm_compute. repeat split; reflexivity. Qed.
 Print Assumptions C05_ex_tag_and_calendar.
+
+(* ---- Proofs.ResetFacts ---- *)
+From Coq Require Import List Bool NArith ZArith Arith.
+From BV Require Import Lib.PyStr Model.V2 Proofs.IncrFacts Proofs.ResetFacts.
+Import ListNotations.
+Theorem C05_repo_initial_values : Tables.V2_FIELD_INITIAL_VALUES = [(n_major, [48%N]); (n_minor, [48%N]); (n_patch, [48%N]); (n_num, [48%N]); (n_inc0, [48%N]); (n_inc1, [49%N])].
+Proof. exact repo_initial_values. Qed.
+Print Assumptions C05_repo_initial_values.
+
+Theorem C05_reset_rollover_fields_spec : forall (raw : list N) (fields : list (list N)) (old c r : vinfo), parse_pattern_fields raw = Some fields -> reset_rollover_fields raw old c = Some r -> (forall f : list N, In f resettable -> get_field r f = (if existsb (eqb_str f) (after_first_changed old c fields) then Some (Some (FInt match assoc f Tables.V2_FIELD_INITIAL_VALUES with | Some i => zundec i | None => 0 end)) else get_field c f)) /\ (forall f : list N, ~ In f resettable -> get_field r f = get_field c f).
+Proof. exact reset_rollover_fields_spec. Qed.
+Print Assumptions C05_reset_rollover_fields_spec.
+
+Theorem C05_incr_numeric_spec : forall (raw : list N) (fields : list (list N)) (old cur : vinfo) (fl : flags) (r : vinfo), parse_pattern_fields raw = Some fields -> incr_numeric raw old cur fl = Some r -> exists c : vinfo, bumped cur fl = Some c /\ (forall f : list N, In f resettable -> get_field r f = (if existsb (eqb_str f) (after_first_changed old c fields) then Some (Some (FInt match assoc f Tables.V2_FIELD_INITIAL_VALUES with | Some i => zundec i | None => 0 end)) else get_field c f)) /\ (forall f : list N, ~ In f resettable -> get_field r f = get_field c f).
+Proof. exact incr_numeric_spec. Qed.
+Print Assumptions C05_incr_numeric_spec.
